@@ -335,7 +335,8 @@ Definition RI (d : dev) (ls : list line) : Prop := ls = split_lines (concat d).
 Inductive RS : source -> lsource -> Prop :=
 | RS_stdin : RS SrcStdin LShared
 | RS_own d : RS (SrcOwn d) (LLines (split_lines (concat d)))
-| RS_mem ls : RS (SrcMem ls) (LLines ls).
+| RS_mem ls : RS (SrcMem ls) (LLines ls)
+| RS_input d : RS (SrcInput d) (LLines (split_lines (concat d))).
 
 Lemma RS_abs (s : source) : RS s (abs_src s).
 Proof. destruct s; constructor. Qed.
@@ -346,7 +347,7 @@ Lemma pull_refines (s : source) (s' : lsource) (d : dev) (ls : list line) :
   let '(l2, s2, ls2, n2) := line_pull s' ls in
   l1 = l2 /\ n1 = n2 /\ RS s1 s2 /\ RI d1 ls2.
 Proof.
-  intros HS HI. unfold RI in HI. subst ls. destruct HS as [|d0|ls0]; cbn [byte_pull line_pull].
+  intros HS HI. unfold RI in HI. subst ls. destruct HS as [|d0|ls0|d0]; cbn [byte_pull line_pull].
   - pose proof (next_line_lines d) as H.
     destruct (split_lines (concat d)) as [|l ls]; destruct H as [d' [-> Hd]].
     + repeat split; [constructor | unfold RI; now rewrite Hd].
@@ -356,6 +357,10 @@ Proof.
     + repeat split. rewrite <- Hd. constructor.
     + repeat split. rewrite <- Hd. constructor.
   - destruct ls0 as [|l ls0]; repeat split; constructor.
+  - pose proof (next_line_lines d0) as H.
+    destruct (split_lines (concat d0)) as [|l ls]; destruct H as [d' [-> Hd]].
+    + repeat split. rewrite <- Hd. constructor.
+    + repeat split. rewrite <- Hd. constructor.
 Qed.
 
 Lemma read_refines (raw : bool) (dl : N) (d : dev) (ls : list line) :
